@@ -241,6 +241,10 @@ func init() {
 			th.par(caller, pos, a[0].(SliceV))
 			return nil
 		},
+		V + "PreemptBound": func(th *Thread, _ *frame, _ token.Pos, _ *ssa.Function, a []Value) Value {
+			th.R.preemptSet, th.R.preemptBound = true, th.R.concreteInt(a[0], "pre-emption bound")
+			return nil
+		},
 		V + "Yield": func(th *Thread, _ *frame, _ token.Pos, _ *ssa.Function, a []Value) Value {
 			th.yield()
 			return nil
